@@ -28,6 +28,7 @@ def mkWr (client : Bool) (op : Nat) (ctor : String) : Option Wr :=
   | ["size", n] => newWriterSize client op (natOr n)
   | ["bufsize", n] => newWriterBufferSize client op (natOr n)
   | ["buf", n] => newWriterBuffer client op (natOr n)
+  | ["bufc", n] => newWriterBuffer client op (natOr n)   -- spare capacity behind the slice is not the writer's
   | ["get", n] => getWriter client op (natOr n)
   | _ => none
 
